@@ -45,7 +45,7 @@ func recordCount(s drive.Step) int {
 	}
 	n := 0
 	for _, o := range s.Tx {
-		if o.Op != "get" {
+		if o.Op != "get" && o.Op != "last" {
 			n++
 		}
 	}
